@@ -56,6 +56,7 @@ type MSess struct {
 	open      bool
 	created   time.Time
 	lastUse   time.Time
+	lastData  time.Time // when the last request that carried accepted bytes was sent (the stored blob is at least that young)
 	algo      string // digest-algorithm requested at creation ("" = default)
 	expect    string // digest announced at creation via mount= (no from)
 	maybeGone bool
